@@ -91,6 +91,10 @@ func replaceWithSiblingTempFile(src *os.File, dst string) (bool, error) {
 	if err != nil {
 		return false, err
 	}
+	if hookErr := verifhook.Step("copy.sibling.create", dst); hookErr != nil {
+		log.Debugf("cannot create a temp file next to %v: %v", dst, hookErr)
+		return false, nil
+	}
 	sibling, err := os.CreateTemp(filepath.Dir(dst), ".yq-tmp-")
 	if err != nil {
 		log.Debugf("cannot create a temp file next to %v: %v", dst, err)
@@ -102,6 +106,9 @@ func replaceWithSiblingTempFile(src *os.File, dst string) (bool, error) {
 		_ = os.Remove(siblingName)
 		return false, cause
 	}
+	if err = verifhook.Step("copy.sibling.copy", siblingName); err != nil {
+		return discard(err)
+	}
 	if _, err = io.Copy(sibling, src); err != nil {
 		return discard(err)
 	}
@@ -109,7 +116,13 @@ func replaceWithSiblingTempFile(src *os.File, dst string) (bool, error) {
 	if err = changeOwner(info, sibling); err != nil {
 		return discard(err)
 	}
+	if err = verifhook.Step("copy.sibling.chmod", siblingName); err != nil {
+		return discard(err)
+	}
 	if err = os.Chmod(siblingName, info.Mode()); err != nil {
+		return discard(err)
+	}
+	if err = verifhook.Step("copy.sibling.sync", siblingName); err != nil {
 		return discard(err)
 	}
 	if err = sibling.Sync(); err != nil {
@@ -119,11 +132,17 @@ func replaceWithSiblingTempFile(src *os.File, dst string) (bool, error) {
 		_ = os.Remove(siblingName)
 		return false, err
 	}
+	if hookErr := verifhook.Step("copy.sibling.rename", dst); hookErr != nil {
+		log.Debugf("cannot rename %v over %v: %v", siblingName, dst, hookErr)
+		_ = os.Remove(siblingName)
+		return false, nil
+	}
 	if err = os.Rename(siblingName, dst); err != nil {
 		log.Debugf("cannot rename %v over %v: %v", siblingName, dst, err)
 		_ = os.Remove(siblingName)
 		return false, nil
 	}
+	_ = verifhook.Step("copy.sibling.renamed", dst)
 	return true, nil
 }
 
